@@ -117,6 +117,26 @@ static void op_from(const McArg *a) {
         if (!check_path(h, spec_cell_at(res, i), bd16[i], g)) return;
     mc_states(g->n);
 }
+// near(h, R): every target within R neighbour steps of h on the dense graph of a complete resolution (distances known from BFS)
+static void op_near(const McArg *a) {
+    uint64_t h = a[0].u;
+    int res = spec_res(h), R = (int)a[1].i;
+    DGraph *g = dg_get(res);
+    if (*g->nbad) {
+        mc_ctr(0, 1);
+        return;
+    }
+    if (g->n > bn) bd16 = realloc(bd16, g->n * 2), bq = realloc(bq, g->n * 4), bn = g->n;
+    dg_bfs(g, (int32_t)spec_cell_id(h), bd16, bq);
+    mc_nontrivial();
+    int64_t cnt = 0;
+    for (int64_t i = 0; i < g->n; i++)
+        if (bd16[i] <= R) {
+            cnt++;
+            if (!check_path(h, spec_cell_at(res, i), bd16[i], g)) return;
+        }
+    mc_states(cnt);
+}
 static void op_path(const McArg *a) {
     uint64_t h = a[0].u, b = a[1].u;
     int res = spec_res(h);
@@ -217,9 +237,9 @@ static void op_line(const McArg *a) {
     check_path(b, h, -1, NULL);
     if (G.n > 1500000) og_clear(&G);
 }
-enum { OP_LINE = 4 };
-const McOp MC_OPS[] = {{"from", "h", op_from}, {"path", "hh", op_path}, {"ball", "hi", op_ball}, {"far", "hii", op_far}, {"line", "hii", op_line}};
-const int MC_NOPS = 5;
+enum { OP_LINE = 4, OP_NEAR = 5 };
+const McOp MC_OPS[] = {{"from", "h", op_from}, {"path", "hh", op_path}, {"ball", "hi", op_ball}, {"far", "hii", op_far}, {"line", "hii", op_line}, {"near", "hi", op_near}};
+const int MC_NOPS = 6;
 
 static int g_res;
 static void ph_from(void *u) {
@@ -255,6 +275,13 @@ static void ph_far(void *u) {
                 MC_RUN(OP_FAR, H(g_dom.v[i]), I(d), I(steps[s]));
             }
 }
+static int g_nearR;
+static void ph_near(void *u) {
+    for (size_t i = mc_wid; i < g_dom.n; i += mc_nw) {
+        if (mc_expired()) return;
+        MC_RUN(OP_NEAR, H(g_dom.v[i]), I(g_nearR));
+    }
+}
 static U64Vec g_corner;
 static void ph_line(void *u) {
     static const int Ls[] = {60, 190, 340, 500, 700, 1000, 1600, 2100, 2800};
@@ -272,7 +299,7 @@ int main(int argc, char **argv) {
     int fullmax = mc_thorough ? 3 : 2;
     g_R = mc_thorough ? 8 : 5;
     snprintf(mc_bounds, sizeof mc_bounds,
-             "all ordered pairs of FULL(0..%d)%s; balls of radius %d around FINE level %d origins at resolutions %d..15; long paths of 10/100/500 steps "
+             "all ordered pairs of FULL(0..%d)%s; every origin within 14 (20) steps of a pentagon at the next resolution x every target within 30 (45) steps; balls of radius %d around FINE level %d origins at resolutions %d..15; long paths of 10/100/500 steps "
              "in 6 headings from PENT(r,1) origins and IDX base cells at r in {5,10,15}; straight lines of 60..2800 cells in 16 (quick: 8) IJ directions from "
              "origins with digit strings d^r,(d e)^r/2 (far from the base-cell centre, local coordinates up to 1.4e6) at r = 13..15",
              fullmax, mc_thorough ? "" : " plus PENT(3,3) origins x all of FULL(3)", g_R, mc_thorough ? 1 : 2, fullmax + 1);
@@ -286,6 +313,28 @@ int main(int argc, char **argv) {
         dg_build_parallel(3);
         dom_pent(3, 3, &g_dom);
         mc_phase("PENT(3,3) origins x all of FULL(3)", ph_from_dom, NULL);
+        g_dom.n = 0;
+    }
+    {
+        // lines that pass a pentagon on any side: origins = every cell within 14 steps of a pentagon at the first resolution that is not
+        // explored completely (quick: 3, thorough: 4), targets = everything within 30 steps
+        int r = fullmax + 1;
+        dg_build_parallel(r);
+        DGraph *g = dg_get(r);
+        g_dom.n = 0;
+        if (!*g->nbad) {
+            uint64_t pents[12];
+            getPentagons(r, pents);
+            if (g->n > bn) bd16 = realloc(bd16, g->n * 2), bq = realloc(bq, g->n * 4), bn = g->n;
+            for (int p = 0; p < 12; p++) {
+                dg_bfs(g, (int32_t)spec_cell_id(pents[p]), bd16, bq);
+                for (int64_t i = 0; i < g->n; i++)
+                    if (bd16[i] <= (r == 3 ? 14 : 20) && (mc_thorough || i % 2 == 0)) uv_push(&g_dom, spec_cell_at(r, i));
+            }
+            uv_sortuniq(&g_dom);
+        }
+        g_nearR = r == 3 ? 30 : 45;
+        mc_phase("origins near the pentagons x targets within 30 (45) steps", ph_near, NULL);
         g_dom.n = 0;
     }
     for (int r = fullmax + 1; r <= 15; r++) dom_fine_raw(r, mc_thorough ? 1 : 2, &g_dom);
